@@ -86,7 +86,7 @@ for name, src, fn in [("DCTSIZE", JPEGLIB, "jpeglib.h"), ("DCTSIZE2", JPEGLIB, "
                       ("JPEG_MAX_DIMENSION", JMORECFG, "jmorecfg.h"), ("HUFF_LOOKAHEAD", JDHUFF_H, "jdhuff.h"),
                       ("JPEG_EOI", JPEGLIB, "jpeglib.h"), ("JPEG_RST0", JPEGLIB, "jpeglib.h"),
                       ("APP0_DATA_LEN", JDMARKER, "jdmarker.c"), ("APP14_DATA_LEN", JDMARKER, "jdmarker.c"),
-                      ("APPN_DATA_LEN", JDMARKER, "jdmarker.c")]:
+                      ("APPN_DATA_LEN", JDMARKER, "jdmarker.c"), ("BUFSIZE", JDHUFF_C, "jdhuff.c")]:
     consts[name] = ceval(define(src, name, fn))
 
 # ---------------------------------------------------------------- marker enum
@@ -162,7 +162,7 @@ bounds = [
 
 
 def norm(s):
-    return re.sub(r"\s+", "", s)
+    return re.sub(r"\s+", "", s.replace("\\\n", " "))
 
 
 GUARDS = [
@@ -208,6 +208,11 @@ GUARDS = [
     (JDHUFF_C, "jdhuff.c", "if (((JLONG)code) >= (((JLONG)1) << si)) ERREXIT(cinfo, JERR_BAD_HUFF_TABLE);", "make_d_derived code legality"),
     (JDHUFF_C, "jdhuff.c", "if (sym < 0 || sym > (cinfo->master->lossless ? 16 : 15)) ERREXIT(cinfo, JERR_BAD_HUFF_TABLE);", "make_d_derived DC symbols"),
     (JDHUFF_C, "jdhuff.c", "dtbl->maxcode[17] = 0xFFFFFL;", "17-bit sentinel"),
+    (JDHUFF_C, "jdhuff.c", "if (cinfo->src->bytes_in_buffer < BUFSIZE * (size_t)cinfo->blocks_in_MCU || cinfo->unread_marker != 0) usefast = 0;", "decode_mcu fast-path threshold"),
+    (JDHUFF_C, "jdhuff.c", "if (cinfo->restart_interval) { if (entropy->restarts_to_go == 0) if (!process_restart(cinfo)) return FALSE; usefast = 0; }", "decode_mcu no fast path with restarts"),
+    (JDHUFF_C, "jdhuff.c", "if (bits_left <= 16) { GET_BYTE GET_BYTE GET_BYTE GET_BYTE GET_BYTE GET_BYTE }", "fast path prefetch of 6 bytes"),
+    (JDMARKER, "jdmarker.c", "marker->cur_marker = cur_marker; marker->bytes_read = 0;", "save_marker sets bytes_read whenever it sets cur_marker"),
+    (JDMARKER, "jdmarker.c", "cinfo->marker->next_restart_num = 0;", "get_sos resets next_restart_num"),
     (JDHUFF_C, "jdhuff.c", "for (k = 1; k < DCTSIZE2; k++) { HUFF_DECODE(s, br_state, actbl, return FALSE, label2); r = s >> 4; s &= 15; if (s) { k += r; CHECK_BIT_BUFFER(br_state, s, return FALSE); r = GET_BITS(s); s = HUFF_EXTEND(r, s);", "decode_mcu_slow AC loop"),
     (JDHUFF_C, "jdhuff.c", "(*block)[jpeg_natural_order[k]] = (JCOEF)s; } else { if (r != 15) break; k += 15; }", "decode_mcu_slow store"),
     (JDPHUFF, "jdphuff.c", "if (is_DC_band) { if (cinfo->Se != 0) bad = TRUE; } else { if (cinfo->Ss > cinfo->Se || cinfo->Se >= DCTSIZE2) bad = TRUE; if (cinfo->comps_in_scan != 1) bad = TRUE; } if (cinfo->Ah != 0) { if (cinfo->Al != cinfo->Ah - 1) bad = TRUE; } if (cinfo->Al > 13) bad = TRUE;", "jdphuff start_pass validation"),
@@ -273,6 +278,69 @@ for f, fn in ((JDPHUFF, "jdphuff.c"), (JDLHUFF, "jdlhuff.c")):
     if "std_huff_tables" in f:
         die("%s now installs standard tables too (model assumes only jdhuff.c does)" % fn)
 
+# ---------------------------------------------------------------- per-datastream state of the marker reader / input controller
+
+
+def struct_fields(body):
+    """[(name, is_method)] of a struct body (comments already stripped)"""
+    out = []
+    for decl in body.split(";"):
+        d = " ".join(decl.split())
+        if not d:
+            continue
+        mm = re.search(r"\(\s*\*\s*(\w+)\s*\)\s*\(", d)          # function pointer
+        if mm:
+            out.append((mm.group(1), True))
+            continue
+        mm = re.search(r"(\w+)\s*(?:\[[^\]]*\])?$", d)
+        if not mm:
+            die("cannot parse struct member '%s'" % d)
+        is_method = bool(re.match(r"jpeg_marker_parser_method\b", d))
+        out.append((mm.group(1), is_method))
+    return out
+
+
+def struct_body(src, fn, pat, what):
+    mm = re.search(pat, src, re.S)
+    if not mm:
+        die("%s: %s not found" % (fn, what))
+    return mm.group(1)
+
+
+def func_body(src, fn, name):
+    mm = re.search(r"\n%s\s*\(j_decompress_ptr cinfo\)\s*\{(.*?)\n\}" % name, src, re.S)
+    if not mm:
+        die("%s: function %s not found" % (fn, name))
+    return mm.group(1)
+
+
+mr_pub = struct_fields(struct_body(JPEGINT, "jpegint.h", r"struct\s+jpeg_marker_reader\s*\{(.*?)\n\};", "struct jpeg_marker_reader"))
+mr_priv = struct_fields(struct_body(JDMARKER, "jdmarker.c", r"typedef\s+struct\s*\{(.*?)\}\s*my_marker_reader\s*;", "my_marker_reader"))
+mr_priv = [f for f in mr_priv if f[0] != "pub"]
+# configuration set by jinit_marker_reader / jpeg_save_markers / jpeg_set_marker_processor: persistent by design
+MR_CONFIG = ("process_COM", "process_APPn", "length_limit_COM", "length_limit_APPn")
+for c in MR_CONFIG:
+    if c not in [f[0] for f in mr_priv]:
+        die("jdmarker.c: my_marker_reader lost its configuration member %s" % c)
+mr_state = [n for n, meth in mr_pub + mr_priv if not meth and n not in MR_CONFIG]
+rb = func_body(JDMARKER, "jdmarker.c", "reset_marker_reader")
+mr_reset = sorted(set(re.findall(r"marker->(?:pub\.)?(\w+)\s*=", rb)))
+cinfo_reset = sorted(set(re.findall(r"cinfo->(\w+)\s*=", rb)))
+ic_pub = struct_fields(struct_body(JPEGINT, "jpegint.h", r"struct\s+jpeg_input_controller\s*\{(.*?)\n\};", "struct jpeg_input_controller"))
+ic_priv = [f for f in struct_fields(struct_body(JDINPUT, "jdinput.c", r"typedef\s+struct\s*\{(.*?)\}\s*my_input_controller\s*;", "my_input_controller")) if f[0] != "pub"]
+ic_state = [n for n, meth in ic_pub + ic_priv if not meth] + ["consume_input"]     # consume_input is switched per scan: state
+ib = func_body(JDINPUT, "jdinput.c", "reset_input_controller")
+ic_reset = sorted(set(re.findall(r"inputctl->(?:pub\.)?(\w+)\s*=", ib)))
+if "reset_marker_reader" not in ib:
+    die("jdinput.c: reset_input_controller no longer calls reset_marker_reader")
+if norm("(*cinfo->inputctl->reset_input_controller) (cinfo);") not in norm(strip_comments(rd("jdapimin.c"))):
+    die("jdapimin.c: jpeg_consume_input no longer resets the input controller at DSTATE_START")
+
+
+def coq_strs(l):
+    return "[%s]" % "; ".join('"%s"' % x for x in l)
+
+
 # ---------------------------------------------------------------- output
 out = []
 w = out.append
@@ -281,7 +349,7 @@ w("   jdinput.c jdphuff.c jdarith.c jdlhuff.c jdlossls.c jddiffct.c jdatasrc*.c 
 w("From Coq Require Import List ZArith Bool String.\nImport ListNotations.\nLocal Open Scope string_scope.\nLocal Open Scope Z_scope.\n")
 for k in ["DCTSIZE", "DCTSIZE2", "NUM_QUANT_TBLS", "NUM_HUFF_TBLS", "NUM_ARITH_TBLS", "MAX_COMPS_IN_SCAN",
           "MAX_SAMP_FACTOR", "C_MAX_BLOCKS_IN_MCU", "D_MAX_BLOCKS_IN_MCU", "MAX_COMPONENTS", "JPEG_MAX_DIMENSION",
-          "HUFF_LOOKAHEAD", "JPEG_EOI", "JPEG_RST0", "APP0_DATA_LEN", "APP14_DATA_LEN", "APPN_DATA_LEN"]:
+          "HUFF_LOOKAHEAD", "JPEG_EOI", "JPEG_RST0", "APP0_DATA_LEN", "APP14_DATA_LEN", "APPN_DATA_LEN", "BUFSIZE"]:
     w("Definition L_%s : Z := %d." % (k, consts[k]))
 w("")
 for name, val in markers:
@@ -304,6 +372,14 @@ w("(* std_huff_tables: tables installed by jinit_huff_decoder into empty slots (
 w("Definition std_huff : list (bool * Z * list Z * list Z) :=\n  [%s]." % ";\n   ".join(
     "(%s, %s, [%s], [%s])" % ("true" if a == "dc" else "false", b, "; ".join(map(str, std[bn])), "; ".join(map(str, std[vn])))
     for a, b, bn, vn in slots))
+w("")
+w("(* per-datastream state: members of the marker reader / input controller that are neither methods nor")
+w("   configuration, and the members assigned by reset_marker_reader / reset_input_controller *)")
+w("Definition marker_reader_state_fields : list string := %s." % coq_strs(mr_state))
+w("Definition reset_marker_reader_assigns : list string := %s." % coq_strs(mr_reset))
+w("Definition reset_marker_reader_cinfo_assigns : list string := %s." % coq_strs(cinfo_reset))
+w("Definition input_controller_state_fields : list string := %s." % coq_strs(ic_state))
+w("Definition reset_input_controller_assigns : list string := %s." % coq_strs(ic_reset))
 w("")
 w("(* guards of the C text the model mirrors: (file, what, found verbatim modulo whitespace) *)")
 w("Definition guards : list (string * string * bool) :=\n  [%s]." % ";\n   ".join(
